@@ -49,6 +49,8 @@ def c05(proj, rep, tier):
     round3b.dt10(proj, rep, ENTANGLE if tier == 'quick' else None)
     n = round3b.p2(proj, rep)
     rep.floor('P2 partial transposes of the irrep blocks', n, 2)
+    n = round3b.hm5(proj, rep)
+    rep.floor('HM5 functions of numqi.entangle with a state argument', n, 30)
 
 
 def c06(proj, rep, tier):
@@ -83,6 +85,8 @@ def c06(proj, rep, tier):
     round3b.cc1(proj, rep, ['numqi.entangle'] if tier == 'quick' else None)
     n = round3b.i2(proj, rep)
     rep.floor('I2 interpolation-parameter assignments', n, 1)
+    n = round3b.hm5(proj, rep)
+    rep.floor('HM5 functions of numqi.entangle with a state argument', n, 30)
     rep.assume('threshold exactness, interpolation distance, every beta inequality of the hierarchy and "inner-model states pass '
                'outer tests" are eigenvalue / solver quantities: not decided. Decided: the structural necessary conditions - a genuine '
                'partial transpose for symbolic dims, monotone intersection of intervals, complete constraint sets that only grow.')
@@ -238,6 +242,9 @@ def c02(proj, rep, tier):
     rep.floor('HM1 self-transpose compositions in the manifold maps', n, 10)
     n = round3b.w8(proj, rep, MANIFOLD if tier == 'quick' else None)
     round3b.dt7(proj, rep, MANIFOLD if tier == 'quick' else None)
+    n10, n11 = round3b.w10_w11(proj, rep)
+    rep.floor('W10 power sites of the Cayley chart', n10, 2)
+    rep.floor('W11 triu / tril splits of a parameter matrix', n11, 2)
     rep.floor('W8 forward trivialization maps scanned for saturating functions', n, 25)
     rep.assume('full rank of the Jacobian at generic theta is value-level: only necessary conditions (parameter count, theta '
                'placed in a field the projection keeps, theta reaches the map) are decided')
